@@ -1,6 +1,6 @@
 (* Base.v -- number system and Python-runtime primitives used by the
    generated models (coq/gen/*.v).  Hand-written, no proofs about the code. *)
-From Coq Require Export QArith Qminmax Qabs ZArith List Bool Lia Lqa.
+From Coq Require Export QArith Qminmax Qabs Qround ZArith List Bool Lia Lqa.
 Export ListNotations.
 Open Scope Q_scope.
 
@@ -108,3 +108,6 @@ Definition py_slice {A} (l : list A) (lo hi : option Z) : list A :=
   let a := match lo with None => 0%Z | Some i => py_norm_index n i end in
   let b := match hi with None => n | Some i => py_norm_index n i end in
   firstn (Z.to_nat (b - a)) (skipn (Z.to_nat a) l).
+
+(* Python float modulo (sign of the divisor): a - b * floor(a / b) *)
+Definition py_mod (a b : Q) : Q := a - b * inject_Z (Qfloor (a / b)).
